@@ -370,7 +370,7 @@ def gen_list_op(rng, doc, live, its):
         lid = rng.randint(0, 2)
         chain, _ = _decl_chain(rng, doc, want="list")
         live.add(lid)
-        return ["l.new", lid, chain, rng.choice(["id", "id", "neg", "box"])]
+        return ["l.new", lid, chain, rng.choice(["id", "id", "neg", "box", "boom"])]
     lid = rng.choice(sorted(live)) if rng.random() < 0.95 else rng.randint(0, 2)
     idx = rng.choice([-5, -3, -2, -1, 0, 0, 1, 1, 2, 3, 5])
     k = rng.choice(["l.len", "l.get", "l.get", "l.set", "l.set", "l.del", "l.in", "l.append", "l.append", "l.pop",
@@ -384,7 +384,7 @@ def gen_list_op(rng, doc, live, its):
     if k in ("l.in", "l.append"):
         return [k, lid, ["new", enc(rng.choice(VALS))]]
     if k in ("l.keep", "l.remove"):
-        return [k, lid, rng.choice(["truthy", "none", "all", "is_num", "small", "is_bool", "is_int", "is_float"])]
+        return [k, lid, rng.choice(["truthy", "none", "all", "is_num", "small", "is_bool", "is_int", "is_float", "first2", "alt", "first2"])]
     if k == "l.it.next" and not its:
         k = "l.it.new"
     if k == "l.it.new":
